@@ -45,6 +45,7 @@ def main():
     except GenError as e:
         run.proof_broken.append('translator: ' + str(e))
     run.check_proofs(deps=['theories/Model/Lexer.vo', 'theories/Proofs/LexerProofs.vo'])
+    NCORPUS = run_corpus(run, PID, src)          # minimised past failures first
     rc, o, e = sh([os.path.join(VERIF, 'ocaml/build.sh')], timeout=900)
     if rc != 0:
         run.corr_broken.append('extracted model does not build: ' + (o + e)[-300:])
